@@ -1,0 +1,29 @@
+//go:build verif
+
+// Contracts for package cjk (read by /verif/gocv; comment-only effect with the verif tag off).
+
+package cjk
+
+// ---------------------------------------------------------------------------
+// C19: the CJK width filter never indexes out of range (its three lookup tables, the rune before a
+// voiced mark) and hands only valid runes to the term builder
+// ---------------------------------------------------------------------------
+
+// combine folds a (semi-)voiced sound mark into the katakana before it: there must be a rune
+// before it.
+//@ func combine
+//@   props C19
+//@   mode int
+//@   requires 1 <= pos && pos <= len(text) && forall(k, 0, len(text), runeValid(text[k])) && base(text) != base(kanaCombineVoiced) && base(text) != base(kanaCombineHalfVoiced)
+//@   modifies text[*]
+//@   ensures forall(k, 0, len(text), runeValid(text[k]))
+
+//@ func CJKWidthFilter.Filter
+//@   props C19
+//@   mode int
+//@   requires forall(k, 0, len(input), input[k] != nil)
+//@   modifies analysis.Token.Term
+//@   ensures result == input
+//@   loop 0: invariant forall(k, 0, len(input), input[k] != nil)
+//@   loop 1: invariant 0 <= i && i <= runeCount && runeCount == len(runes) && fresh(runes) && forall(k, 0, len(runes), runeValid(runes[k]))
+//@   loop 1: decreases runeCount - i
